@@ -106,6 +106,10 @@ where
   fn close_internal(&self) {
     // Drop logic is now just the close logic.
     // The drop impl will call this.
+    // Only the last open sender handle disconnects the receivers.
+    if self.dispatcher.sender_count.fetch_sub(1, Ordering::AcqRel) != 1 {
+      return;
+    }
     let pinned_map = self.dispatcher.subscriptions.pin();
     for (_topic, list_arc) in pinned_map.iter() {
       let subscribers_snapshot = list_arc.reader.enter();
@@ -135,9 +139,14 @@ where
   T: Send + Clone + 'static,
 {
   fn clone(&self) -> Self {
+    // A clone of a closed handle is closed and is not counted.
+    let closed = self.closed.load(Ordering::Acquire);
+    if !closed {
+      self.dispatcher.sender_count.fetch_add(1, Ordering::AcqRel);
+    }
     Self {
       dispatcher: self.dispatcher.clone(),
-      closed: AtomicBool::new(false),
+      closed: AtomicBool::new(closed),
     }
   }
 }
